@@ -24,6 +24,9 @@ type c12Task struct {
 	// Fill > 0: the task's requests are padded to exactly Fill packet bodies (the message then ends with an
 	// empty end-of-message packet, the one packet whose header is not derived from a data packet).
 	Fill int `json:"fill,omitempty"`
+	// EnvSize > 0: the task's responses start with an environment change announcing this packet size (the size is
+	// shared by all channels of the connection: other tasks are sending while the reader applies it).
+	EnvSize int `json:"env_size,omitempty"`
 	// Trailing: after the last response the peer sends this many more packages on the task's channel, which the
 	// client does not wait for: they race the channel's Close (at most the queue size, or Close would meet the
 	// listed full-queue deadlock of C13).
@@ -76,6 +79,9 @@ func (c12) Gen(r *Rand, idx int, tier string) interface{} {
 		t.NoClose = r.Pct(15)
 		if r.Pct(25) {
 			t.Fill = 1 + r.Intn(2)
+		}
+		if r.Pct(12) {
+			t.EnvSize = Pick(r, []int{512, 512, 1024, 600})
 		}
 		p.Tasks = append(p.Tasks, t)
 	}
@@ -307,6 +313,10 @@ func (c12) Run(plan interface{}, schedSeed uint64, replay []simrt.Choice, lenien
 		}
 		taskOfChan[m.Channel] = task
 		var body []byte
+		if task >= 1 && task <= len(p.Tasks) && p.Tasks[task-1].EnvSize > 0 {
+			body = append(body, peer.EnvChange(peer.EnvMember{Type: 4, New: fmt.Sprint(p.Tasks[task-1].EnvSize), Old: "512"})...)
+			s.Fault("packet-size-change")
+		}
 		for k := 0; k < n; k++ {
 			body = append(body, peer.Done(0x11, 0, c12Marker(task, round, k))...)
 		}
